@@ -223,6 +223,16 @@ def check(pid, tier, seed):
     for xid, recs in yres.items():
         execs[xid] = p_events(recs)
         src[xid] = {"kind": "random", "cfg": ycfgs[xid]}
+    # torn executions (see concrouter.py): the same kind of programs on the access-instrumented build, with a share of the
+    # plain memory accesses as scheduling points
+    from components import races
+    tcount = {"quick": 800, "thorough": 30000}[tier]
+    ts, tcfgs = y_scripts("%s-torn" % seed, tcount)
+    ts = "\n".join((l.replace("X y", "X a", 1) + " accy=%d" % (500 + 700 * (k % 5))) if l.startswith("X y") else l for k, l in enumerate(ts.split("\n")))
+    tres = common.run_harness(races._race_build("pool_race", "pool/pool_harness.cpp", REPO_SRC), ts)
+    for xid, recs in tres.items():
+        execs[xid] = p_events(recs)
+        src[xid] = {"kind": "random-torn", "cfg": tcfgs["y" + xid[1:]] + " accy=on"}
     toolong = [x for x, e in execs.items() if any(ev["e"] == "TooLong" for ev in e)]
     if toolong:
         raise common.InfraError("executions exceeded the step budget: %s" % toolong[:3])
